@@ -22,6 +22,10 @@ import (
 //   schema / profile a required part is absent or empty (ID, Version, IssueInstant, Issuer; the AttributeQuery
 //                    subject name), Version is not "2.0", the Issuer is not the registered entity ID, all of the
 //                    LogoutRequest subject alternatives BaseID / NameID / EncryptedID are absent;
+//   destination      the Destination differs from a value built only from the endpoint the metadata advertises for the
+//                    service of that request type and this request's issuer;
+//   not registered   a value the request names (e.g. AssertionConsumerServiceURL) equals none of the entries of a list
+//                    registered for the looked-up service provider (exhausted search, a match alone accepts);
 //   transport        the HTTP method is neither GET nor POST, the form could not be parsed, the message parameter is
 //                    empty; the binding selected for the reply is none of the supported ones.
 //
@@ -46,6 +50,203 @@ var rejectDedicated = map[string]string{
 type rejectReason struct {
 	name string
 	ok   func(p *APath) bool
+}
+
+// lenArg: v is len(x): x.
+func lenArg(v ssa.Value) ssa.Value {
+	if c, ok := v.(*ssa.Call); ok {
+		if b, isB := c.Call.Value.(*ssa.Builtin); isB && b.Name() == "len" && len(c.Call.Args) == 1 {
+			return c.Call.Args[0]
+		}
+	}
+	return nil
+}
+
+// emptySubject: for an EMPTY atom, the value tested.
+func emptySubject(a Atom) ssa.Value {
+	b, ok := stripNot(a.Cond).(*ssa.BinOp)
+	if !ok {
+		return nil
+	}
+	for _, pair := range [][2]ssa.Value{{b.X, b.Y}, {b.Y, b.X}} {
+		if c, isC := pair[1].(*ssa.Const); isC {
+			_ = c
+			if x := lenArg(pair[0]); x != nil {
+				return x
+			}
+			return pair[0]
+		}
+	}
+	return nil
+}
+
+// notRegisteredReason: fn refuses on path p only because a value the request names (a field of the decoded request)
+// equals none of the entries of a list registered for the looked-up service provider: the path's conditions are
+// "the named value is present" and "the loop over the registered list is exhausted", and a match alone
+// (EQ(list[i].f, named) under nothing but the same conditions) makes fn accept. A conformant request of a
+// registered provider names its own registered entries.
+func (cx *Ctx) notRegisteredReason(hk string, aps []APath, p *APath) bool {
+	fx := cx.Fx
+	vf := cx.vflow(hk)
+	if vf == nil {
+		return false
+	}
+	all := func(v ssa.Value, pats ...string) bool {
+		ls := vf.Deep(vf.Labels(v)).leaves()
+		n := 0
+		for _, l := range ls {
+			if l == "const:zero" {
+				continue
+			}
+			if !matchAny(pats, l) {
+				return false
+			}
+			n++
+		}
+		return n > 0
+	}
+	registered := func(v ssa.Value) bool {
+		return all(v, "ext:iface:provider.IDPStorage.GetEntityByID#0.Metadata.*")
+	}
+	named := func(v ssa.Value) bool {
+		return all(v, "decoded:samlp.AuthnRequestType.*", "decoded:samlp.LogoutRequestType.*", "decoded:samlp.AttributeQueryType.*")
+	}
+	// classify the atoms of a path: ok=false when an atom is none of: named present, loop condition over a registered list
+	classify := func(q *APath, wantMatch bool) (list ssa.Value, nm ssa.Value, matched, ok bool) {
+		for _, a := range q.Atoms {
+			switch {
+			case a.Op == "EMPTY" && a.Neg:
+				x := emptySubject(a)
+				if x == nil || !named(x) {
+					return nil, nil, false, false
+				}
+				nm = x
+			case a.Op == "LT":
+				b, isB := stripNot(a.Cond).(*ssa.BinOp)
+				if !isB {
+					return nil, nil, false, false
+				}
+				l := lenArg(b.Y)
+				if l == nil {
+					l = lenArg(b.X)
+				}
+				if l == nil || !registered(l) {
+					return nil, nil, false, false
+				}
+				list = l
+			case a.Op == "EQ" && !a.Neg && wantMatch:
+				b, isB := stripNot(a.Cond).(*ssa.BinOp)
+				if !isB {
+					return nil, nil, false, false
+				}
+				good := false
+				for _, pair := range [][2]ssa.Value{{b.X, b.Y}, {b.Y, b.X}} {
+					if registered(pair[0]) && named(pair[1]) {
+						good = true
+					}
+				}
+				if !good {
+					return nil, nil, false, false
+				}
+				matched = true
+			default:
+				return nil, nil, false, false
+			}
+		}
+		return list, nm, matched, true
+	}
+	list, nm, _, ok := classify(p, false)
+	if !ok || list == nil || nm == nil {
+		return false
+	}
+	// exhausted loop: the LT atom of p is negated
+	exhausted := false
+	for _, a := range p.Atoms {
+		if a.Op == "LT" && a.Neg {
+			exhausted = true
+		}
+	}
+	if !exhausted {
+		return false
+	}
+	ri := p.Ret.Parent().Signature.Results().Len() - 1
+	for i := range aps {
+		q := &aps[i]
+		if isNil, _ := fx.errNilness(q, fx.retVal(q, ri)); !isNil {
+			continue
+		}
+		if l2, n2, matched, ok2 := classify(q, true); ok2 && matched && l2 == list && n2 != nil {
+			return true
+		}
+	}
+	return false
+}
+
+// destinationReason: the path found the request's Destination different from a value that, in the scope of handler
+// hk, is built only from the endpoint this provider advertises for the service the request type belongs to (and the
+// issuer of this request's context, constants and the path/URL helpers): a request "addressed to the advertised
+// location" never takes such a path.
+func (cx *Ctx) destinationReason(hk string, p *APath) bool {
+	w, fx := cx.W, cx.Fx
+	svcOf := map[string]string{"<samlp.AuthnRequestType>.Destination": "SingleSignOnService", "<samlp.LogoutRequestType>.Destination": "SingleLogoutService", "<samlp.AttributeQueryType>.Destination": "AttributeService"}
+	vf := cx.vflow(hk)
+	gm := w.Func("provider.(*IdentityProviderConfig).getMetadata")
+	if vf == nil || gm == nil {
+		return false
+	}
+	for _, a := range p.Atoms {
+		if a.Op != "EQ" || !a.Neg {
+			continue
+		}
+		b, isB := a.Cond.(*ssa.BinOp)
+		if !isB {
+			continue
+		}
+		for _, pair := range [][2]ssa.Value{{b.X, b.Y}, {b.Y, b.X}} {
+			svc := ""
+			tp := fx.T(fx.path(pair[0]))
+			for suf, sv := range svcOf {
+				if strings.HasSuffix(tp, suf) {
+					svc = sv
+				}
+			}
+			if svc == "" {
+				continue
+			}
+			tbl, problems := cx.endpointTable(gm)
+			if len(problems) > 0 || len(tbl[svc]) == 0 {
+				continue
+			}
+			allowed := []string{"const:*", "ext:iface:context.Context.Value#0", "alloc:{md.IDPSSODescriptorType}*", "alloc:{md.AttributeAuthorityDescriptorType}*"}
+			var required []string
+			for ep := range tbl[svc] {
+				allowed = append(allowed, "param:*/#0.endpoints."+ep+".*", "param:*/#0.conf.Endpoints.*", "param:*/#0.identityProvider.endpoints."+ep+".*", "param:*/#0.identityProvider.conf.Endpoints.*")
+				required = append(required, ".endpoints."+ep+".")
+			}
+			ls := vf.Deep(vf.Labels(pair[1]))
+			good, has := true, false
+			for _, l := range ls.leaves() {
+				if l == "const:zero" {
+					continue
+				}
+				if !matchAny(allowed, l) {
+					good = false
+				}
+				for _, rq := range required {
+					if strings.Contains(l, rq) {
+						has = true
+					}
+				}
+				if strings.Contains(l, "DescriptorType}") && strings.Contains(l, svc) {
+					has = true
+				}
+			}
+			if good && has {
+				return true
+			}
+		}
+	}
+	return false
 }
 
 func suffixAny(s string, suf ...string) bool {
@@ -240,6 +441,12 @@ func (cx *Ctx) checkRejectReasons(r *Report) {
 						reason = rr.name
 						break
 					}
+				}
+				if reason == "" && cx.destinationReason(hk, p) {
+					reason = "Destination is not the location advertised for this service"
+				}
+				if reason == "" && p.Ret != nil && cx.notRegisteredReason(hk, aps, p) {
+					reason = "a value the request names is none of the entries registered for the service provider"
 				}
 				if reason == "" {
 					bad = atomsStringT(p.Atoms)
